@@ -126,3 +126,9 @@ OK.update({
     's_ns_a': (True, ["ns app {\n  def put ch @ skip {\n    stl.output ch\n    ;skip\n   skip:\n  }\n}\nstl.startup\napp.put 'a'\nstl.loop\n"]),
     's_ns_b': (True, ["ns app {\n  def put value @ after {\n    ;after\n   after:\n    stl.output value\n  }\n}\nstl.startup\napp.put 'b'\nstl.loop\n"]),
 })
+
+# an expression nested far deeper than python's default recursion limit allows: fails (RecursionError inside the
+# assembler's catch-all) in every fresh process, whatever recursion limit an EARLIER call of the same process used
+FAIL.update({
+    'f_deep_expr': (False, ["  ;$ " + "+ 2*w " * 1200 + "\n"]),
+})
